@@ -26,12 +26,12 @@ type Op struct {
 	Val   []byte `json:"val,omitempty"`
 	Rev   uint64 `json:"rev,omitempty"` // expected revision (Update)
 
-	TIssue  time.Duration `json:"t_issue"`
-	TApply  time.Duration `json:"t_apply"`
-	TAnswer time.Duration `json:"t_answer"`
-	Applied  bool `json:"applied"`
-	Answered bool `json:"answered"`
-	Fault    string `json:"fault,omitempty"` // "", "err:<kind>", "lost", "hang", "closed"
+	TIssue   time.Duration `json:"t_issue"`
+	TApply   time.Duration `json:"t_apply"`
+	TAnswer  time.Duration `json:"t_answer"`
+	Applied  bool          `json:"applied"`
+	Answered bool          `json:"answered"`
+	Fault    string        `json:"fault,omitempty"` // "", "err:<kind>", "lost", "hang", "closed"
 
 	NotBefore time.Duration `json:"-"`
 	Deadline  time.Duration `json:"-"` // fault-free classes: must be answered by then
@@ -50,8 +50,8 @@ type Op struct {
 	Read         *Msg `json:"read,omitempty"`          // Get: the message observed (nil = not found)
 	InStop       bool `json:"in_stop,omitempty"`       // issued from inside a StopWithContext call
 
-	Deadl time.Time `json:"-"` // Health: ctx deadline
-	HasDl bool      `json:"-"`
+	Deadl time.Time     `json:"-"` // Health: ctx deadline
+	HasDl bool          `json:"-"`
 	DlIn  time.Duration `json:"dl_in,omitempty"`
 
 	ctx  context.Context
